@@ -993,7 +993,9 @@ fn c12(r: &mut Rng, thorough: bool, w: W) -> std::io::Result<()> {
     }
     // every truncation offset of the small repository document (thorough: of both), and of a generated one
     for (di, d) in repo_docs.iter().enumerate() {
-        let step = if thorough { 1 } else if di == 0 { 37 } else { 3 };
+        // quick: about 500 evenly spread offsets per document (odd step, so all residues occur)
+        let _ = di;
+        let step = if thorough { 1 } else { (d.len() / 500).max(1) | 1 };
         let mut k = 0;
         while k < d.len() {
             emit(w, vec![Some(d[..k].to_vec())])?;
